@@ -27,7 +27,7 @@ func (g *gen) stmtExtra() {
 		at = g.sb.Len()
 		return v
 	}
-	k := g.pick("extra", 63)
+	k := g.pick("extra", 65)
 	if k == 22 || k == 23 || k == 37 || k == 40 || k == 46 || k >= 56 && k <= 59 {
 		if g.off["recover"] || g.rangeDepth > 0 && g.off["recover.in_range"] {
 			k = 0
@@ -906,6 +906,29 @@ func (g *gen) stmtExtra() {
 		if form == 2 {
 			g.line("println(k, %s)", show("v"))
 		}
+	case 63, 64:
+		// evaluation order made visible by a tracing function: operands of assignments, composite
+		// literals, calls, binary operators, the tag and the case expressions of a switch
+		g.feat("evaluation_order")
+		g.line("%s := \"\"", x("et"))
+		g.line("%s := func(s string, v int) int { %s += s; return v }", x("ef"), x("et"))
+		g.line("%s := []int{0, 0, 0}", x("ea"))
+		g.line("%s := 0", x("ei"))
+		g.line("%s[%s(\"i\", %s)], %s = %s(\"x\", 7), %s(\"y\", 2)", x("ea"), x("ef"), x("ei"), x("ei"), x("ef"), x("ef"))
+		g.line("%s := map[string]int{}", x("em"))
+		g.line("%s[string(rune('a'+%s(\"k\", 1)))] += %s(\"v\", 5)", x("em"), x("ef"), x("ef"))
+		g.line("_ = []int{%s(\"a\", 1), %s(\"b\", 2)}", x("ef"), x("ef"))
+		g.line("_ = %s(\"L\", 1) + %s(\"M\", 2)*%s(\"N\", 3)", x("ef"), x("ef"), x("ef"))
+		g.line("if %s(\"c1\", 0) > 0 && %s(\"c2\", 1) > 0 || %s(\"c3\", 1) > 0 {", x("ef"), x("ef"), x("ef"))
+		g.line("\t%s += \"|\"", x("et"))
+		g.line("}")
+		g.line("switch %s(\"sw\", %s&3) {", x("ef"), e("int"))
+		g.line("case %s(\"A\", 1), %s(\"B\", 2):", x("ef"), x("ef"))
+		g.line("\t%s += \"!\"", x("et"))
+		g.line("case %s(\"C\", 3):", x("ef"))
+		g.line("\t%s += \"?\"", x("et"))
+		g.line("}")
+		g.line("println(%s, %s[0], %s, %s[\"b\"])", x("et"), x("ea"), x("ei"), x("em"))
 	default:
 		g.feat("float_ops")
 		g.line("%s, %s := %s, %s", x("fx"), x("fy"), e("float64"), e("float64"))
